@@ -139,9 +139,9 @@ mod guard {
     pub fn sweep(ctx: &Ctx, only: Option<(Option<Isa>, Op, usize, usize, u8)>) {
         let gf = Gf::new();
         install(ctx);
-        let mut gd = Guarded::new(2);
-        let mut gs = Guarded::new(2);
-        let mut gb = Guarded::new(2);
+        let mut gd = Guarded::new(17);
+        let mut gs = Guarded::new(17);
+        let mut gb = Guarded::new(17);
         let mut rng = Rng::derive(ctx.seed(), 0x1212, 0);
         let max_len = ctx.args.ex_u64("maxlen", 320) as usize;
         let mut calls = 0u64;
@@ -153,9 +153,12 @@ mod guard {
                 if !has_kernel(isa, op) {
                     continue;
                 }
-                for len in 0..=max_len {
+                // long operands too (huge symbols: up to the largest symbol size 65 535), around the page size
+                // and the 256 / 512 / 1024-byte strides an unrolled or pipelined kernel might use
+                const LONG: [usize; 26] = [511, 512, 513, 767, 1000, 1023, 1024, 1025, 1279, 2047, 2048, 2049, 3000, 4095, 4096, 4097, 4104, 4160, 4352, 5000, 8191, 8192, 8200, 12345, 16391, 65535];
+                for len in (0..=max_len).chain(LONG.iter().copied().filter(|_| only.is_some() || max_len >= 320)) {
                     for place in 0..2usize {
-                        let scalars: Vec<u8> = if ctx.args.quick() { vec![0, 1, 2, 0x1d, 0xff, rng.next() as u8, rng.next() as u8] } else { (0..24).map(|k| if k < 5 { [0u8, 1, 2, 0x80, 0xff][k] } else { rng.next() as u8 }).collect() };
+                        let scalars: Vec<u8> = if len > max_len { vec![2, 0x1d, rng.next() as u8 | 2] } else if ctx.args.quick() { vec![0, 1, 2, 0x1d, 0xff, rng.next() as u8, rng.next() as u8] } else { (0..24).map(|k| if k < 5 { [0u8, 1, 2, 0x80, 0xff][k] } else { rng.next() as u8 }).collect() };
                         for c in scalars {
                             if !scalar_ok(isa, op, c) {
                                 continue;
